@@ -234,11 +234,11 @@ Proof. exact shared_identity_refuted. Qed.
 
 (* ---------------------------------------------------------------- non-vacuity *)
 Definition idp0 : idp :=
-  {| srv := srv0; clients := [ {| cl_id := b "clientA"; cl_secret := b "secretA"; cl_allow_aud := false |};
-                               {| cl_id := b "clientB"; cl_secret := []; cl_allow_aud := false |} ] |}.
+  {| srv := srv0; clients := [ {| cl_id := b "clientA"; cl_secret := b "secretA"; cl_allow_aud := false; cl_other := [] |};
+                               {| cl_id := b "clientB"; cl_secret := []; cl_allow_aud := false; cl_other := [] |} ] |}.
 
 Definition treq0 (code : token) : treq :=
-  {| tr_post := true; tr_grant := gt_authcode; tr_redirect := b "https://a.example/cb"; tr_code := code;
+  {| tr_conn := conn_none; tr_post := true; tr_grant := gt_authcode; tr_redirect := b "https://a.example/cb"; tr_code := code;
      tr_verifier := []; tr_vhash := []; tr_basic := Some (b "clientA", b "secretA");
      tr_form_client := []; tr_form_secret := [] |}.
 
